@@ -1,6 +1,6 @@
 (** * C20 - cooling models stay inside their physical envelope ([R] theorems; erfc laws as premises). *)
 From Coq Require Import Reals Lra List ZArith Bool.
-From WB Require Import Num Base RNum Props World Kernels Features ModelProofs.
+From WB Require Import Num Base RNum Props World Kernels Features ModelProofs SlabMass SlabFeature SlabTempProofs.
 Import ListNotations.
 Local Open Scope R_scope.
 
@@ -44,6 +44,25 @@ Section C20.
     destruct (plate_model_boundaries sp n dT md expo (top + (bot - top) * (md / md)) H) as [_ B].
     split; [etransitivity; [exact A|] | etransitivity; [exact B|]]; field; exact H.
   Qed.
+
+  (** mass conserving slab, half-space reference, on and below the slab top (adjusted distance >= 0): between the
+      model's minimum temperature and the background (ambient temperature or adiabat) at that depth, and exactly the
+      minimum temperature on the slab top.  The top side (the Gaussian heat anomaly above the slab) and the plate
+      reference are decided by the search of lib/c20.py. *)
+  Theorem C20_mass_conserving_bottom_side : forall (m : @mass_model R) top minT bgT old subvel age adj,
+    special_laws sp -> mc_plate_reference m = false -> 0 <= adj -> 0 < mc_kappa m * age -> minT <= bgT ->
+    minT <= @temperature_analytic R N m top minT bgT old subvel age adj <= bgT.
+  Proof. exact (mass_bottom_side_envelope sp). Qed.
+
+  Theorem C20_mass_conserving_slab_top : forall (m : @mass_model R) top minT bgT old subvel age,
+    special_laws sp -> mc_plate_reference m = false ->
+    @temperature_analytic R N m top minT bgT old subvel age 0 = minT.
+  Proof. exact (mass_slab_top_value sp). Qed.
+
+  (** slab plate model (McKenzie 1970): the series vanishes on the slab top and on the slab bottom *)
+  Theorem C20_slab_plate_model_boundaries : forall n i Rn x acc,
+    @mckenzie_sum R N n i Rn x 0 acc = acc /\ @mckenzie_sum R N n i Rn x 1 acc = acc.
+  Proof. exact (mckenzie_vanishes_on_boundaries sp). Qed.
 End C20.
 
 Print Assumptions C20_half_space_envelope.
@@ -51,3 +70,6 @@ Print Assumptions C20_half_space_depth.
 Print Assumptions C20_half_space_age.
 Print Assumptions C20_linear.
 Print Assumptions C20_plate_boundaries.
+Print Assumptions C20_mass_conserving_bottom_side.
+Print Assumptions C20_mass_conserving_slab_top.
+Print Assumptions C20_slab_plate_model_boundaries.
